@@ -144,6 +144,24 @@ def r06_2_order(ctx):
         srcs = [norm(x) for x in S._flow_sources(g, a)] if a is not None else []
         od = [x for x in S._flow_sources(g, a) if isinstance(x, ast.Call) and call_name(x) == 'OrderedDict'] if a is not None else []
         custom = any(x == '%s._yatiml_attributes()' % data for x in srcs)
+        # whatever _yatiml_attributes() returns is what is dumped; only None (no dict at all) is refused - an empty dict is a value
+        from ..facts import reaching_defs as _rd
+        from ..guards import canon_atom as _ca
+        for rs in g.raises():
+            mine = []
+            for a_, p_ in g.guards(rs):
+                for nm in {x.id for x in ast.walk(a_) if isinstance(x, ast.Name)}:
+                    ds = _rd(g, rs, nm)
+                    if any(isinstance(d, ast.Assign) and isinstance(d.value, ast.Call) and call_name(d.value) == '_yatiml_attributes' for d in ds):
+                        t_, pol_ = _ca(a_, p_)
+                        mine.append((t_.replace(nm, '<attributes>'), pol_))
+                if '_yatiml_attributes()' in norm(a_):
+                    t_, pol_ = _ca(a_, p_)
+                    mine.append((t_.replace('%s._yatiml_attributes()' % data, '<attributes>'), pol_))
+            if mine:
+                r.check(set(mine) == {('<attributes> is None', True)}, 'the result of _yatiml_attributes() is refused exactly when it is None',
+                        g.key('attributes-none-test'), g.loc(rs), 'Representer.__call__ refuses the result of _yatiml_attributes() under %s: e.g. an '
+                        'empty dict, which should be dumped as {}' % sorted(set(mine)))
         r.check(custom and bool(od), 'the mapping is %s._yatiml_attributes() or an OrderedDict of the attribute pairs' % data,
                 g.key('mapping-source'), g.loc(c), 'the represented mapping is %s' % srcs[:3])
         for o in od:
